@@ -194,10 +194,11 @@ def _forward_ref(repo, ob, failure):
         (['<rect id="s" xy="#d|h 2" wh="3"/>', '<circle id="d" x="#a~x2" y="10" r="4"/>', '<rect id="a" x="20" y="0" width="5" height="5"/>'], [0, 2, 1]),
         (['<rect id="p" inside="#a"/>', '<circle id="a" cxy="#b@c" r="9"/>', '<rect id="b" xy="30 20" wh="4"/>'], [2, 1, 0]),
         (['<rect id="p" inside="#a"/>', '<ellipse id="a" cxy="#b@c" rxy="9 6"/>', '<rect id="b" xy="30 20" wh="4"/>'], [2, 1, 0]),
+        (['<use id="u" href="#t" cxy="20 20"/>', '<rect id="t" xy="#z|h" wh="4"/>', '<rect id="z" wh="2"/>'], [2, 1, 0]),
     ]
 
     def geom(out):
-        els = _re.findall(r"<(rect|circle|line|ellipse|polyline|polygon)\b([^>]*)>", out)
+        els = _re.findall(r"<(rect|circle|line|ellipse|polyline|polygon|use)\b([^>]*)>", out)
         root = _re.search(r'<svg[^>]*viewBox="([^"]*)"', out)
         return sorted((n, " ".join(sorted(_re.findall(r'\b(?:x|y|cx|cy|r|rx|ry|x1|y1|x2|y2|width|height|points)="[^"]*"', a)))) for n, a in els) + [("viewBox", root.group(1) if root else "")]
     for els, perm in cases:
